@@ -457,8 +457,18 @@ def gen_scenario(rng, profile, nops=30):
     big = rng.random() < 0.15
     t = rng.randint(1, 999)
     npub = {c: 0 for c in chans}
+    bounds = []   # (ExpireAt ms, channel, key, ittl) of keyed publishes: repeat exactly at / 1 ms before the boundary
     for i in range(nops):
         r = rng.random()
+        if c19 and bounds and rng.random() < 0.12:
+            e, bch, bkey, bittl = rng.choice(bounds)
+            bt = e - rng.choice([0, 0, 1])
+            if bt > t:
+                t = bt
+                lines.append(f"pub {bch} d{i} size={rng.choice(sizes)} ttl={rng.choice(ttls)} meta={rng.choice(metas)} "
+                             f"idem={bkey} ittl={bittl} ver=0 vep=- delta=0 @{t}")
+                npub[bch] += 1
+                continue
         if r < 0.55:
             t += rng.randint(1, 400)
         elif r < 0.8:
@@ -479,6 +489,8 @@ def gen_scenario(rng, profile, nops=30):
             if rng.random() < p_idem:
                 idem = rng.choice(keys)
                 ittl = rng.choice([0, 1000, 2000, 3000, 5000, 1500, 500])
+                if ittl >= 1000:
+                    bounds.append((t + (ittl // 1000) * 1000, ch, idem, ittl))
             ver, vep = 0, "-"
             if rng.random() < p_ver:
                 ver = rng.randint(1, 6)
